@@ -14,19 +14,44 @@
    TolAboveNewton = TRUE admits option sets with tol_outer > NEWTON_TOL (then big and small can hold together).
    Bound to the code by hook H9 (TraceBubbleDew.tla replays every recorded call as a behaviour of this module). *)
 EXTENDS Naturals, TLC
-CONSTANTS MaxOuterChoices,  \* possible values of options_outer.max_iter (default 400)
-          MaxInnerChoices,  \* possible values of options_inner.max_iter (default 5)
-          TolAboveNewton    \* BOOLEAN
-VARIABLES pc,       \* where the code is
-          spec,     \* "T" | "p"
-          given,    \* an initial pressure (temperature) was supplied
-          stage,    \* "none" | "given" | "idealgas" | "spinodal"
-          big, small, trivial, innerc,
-          ko, ki,   \* outer iterations started, inner iterations done in the current outer iteration
-          steps,    \* outer iterations completed (err_out assigned) in this attempt
-          maxo, maxi,
-          lastkind, \* kind of the last completed outer step: "none" | "subst" | "newton"
-          result    \* "none" | "Ok" | "TrivialSolution" | "NotConverged" | "Error"
+CONSTANTS
+  \* @type: Set(Int);
+  MaxOuterChoices,  \* possible values of options_outer.max_iter (default 400)
+  \* @type: Set(Int);
+  MaxInnerChoices,  \* possible values of options_inner.max_iter (default 5)
+  \* @type: Bool;
+  TolAboveNewton    \* BOOLEAN
+VARIABLES
+  \* @type: Str;
+  pc,       \* where the code is
+  \* @type: Str;
+  spec,     \* "T" | "p"
+  \* @type: Bool;
+  given,    \* an initial pressure (temperature) was supplied
+  \* @type: Str;
+  stage,    \* "none" | "given" | "idealgas" | "spinodal"
+  \* @type: Bool;
+  big,
+  \* @type: Bool;
+  small,
+  \* @type: Bool;
+  trivial,
+  \* @type: Bool;
+  innerc,
+  \* @type: Int;
+  ko,       \* outer iterations started
+  \* @type: Int;
+  ki,       \* inner iterations done in the current outer iteration
+  \* @type: Int;
+  steps,    \* outer iterations completed (err_out assigned) in this attempt
+  \* @type: Int;
+  maxo,
+  \* @type: Int;
+  maxi,
+  \* @type: Str;
+  lastkind, \* kind of the last completed outer step: "none" | "subst" | "newton"
+  \* @type: Str;
+  result    \* "none" | "Ok" | "TrivialSolution" | "NotConverged" | "Error"
 vars == <<pc, spec, given, stage, big, small, trivial, innerc, ko, ki, steps, maxo, maxi, lastkind, result>>
 
 MaxOf(S) == CHOOSE m \in S : \A k \in S : k <= m
@@ -143,4 +168,29 @@ Terminates == <>(pc = "done")
 \* expected counter-examples (the code does not look at these)
 OkMeansInnerConverged == (result = "Ok" /\ lastkind = "subst") => innerc
 OkMeansNewtonFinished == result = "Ok" => lastkind = "newton"
+
+\* ---- unbounded: an inductive invariant for ANY max_iter (checked by Apalache: IndInit => IndInv, IndInv /\ Next => IndInv', see ApaBubbleDew.tla)
+LoopPcs == {"trivial0", "outer", "inner", "x2", "newton", "trivial", "final"}
+IndInv ==
+  /\ pc \in {"start", "idealgas", "spinodal", "iterate", "trivial0", "outer", "inner", "x2", "newton", "trivial", "final", "done"}
+  /\ spec \in {"T", "p"} /\ given \in BOOLEAN /\ stage \in {"none", "given", "idealgas", "spinodal"}
+  /\ big \in BOOLEAN /\ small \in BOOLEAN /\ trivial \in BOOLEAN /\ innerc \in BOOLEAN
+  /\ ko \in Nat /\ ki \in Nat /\ steps \in Nat /\ maxo \in Nat /\ maxi \in Nat
+  /\ lastkind \in {"none", "subst", "newton"}
+  /\ result \in {"none", "Ok", "TrivialSolution", "NotConverged", "Error"}
+  /\ (result # "none" => pc = "done")
+  /\ (result = "Ok" => small /\ ~trivial /\ steps >= 1)
+  /\ (result = "NotConverged" => ~small)
+  /\ ((pc \in LoopPcs /\ steps = 0) => ~small)
+  /\ (pc = "trivial" => steps >= 1)
+  /\ (pc = "trivial0" => ko = 0 /\ steps = 0)
+  /\ (pc \in {"outer", "inner", "x2", "newton", "final"} => ~trivial)
+  /\ (pc = "newton" => ~big)
+  /\ (pc \in {"outer", "inner", "x2", "newton", "trivial", "final"} => ko <= maxo /\ steps <= ko)
+  /\ (pc \in {"inner", "x2", "newton", "trivial"} => ko >= 1)
+  /\ (pc = "inner" => ki < maxi)
+  /\ (pc = "outer" => ko < maxo)
+  /\ (pc \in {"inner", "x2"} => steps < ko)
+  /\ (pc = "newton" => steps < ko)
+IndInit == IndInv
 ================================================================================
